@@ -191,6 +191,20 @@ def c03_obligations():
                TREND_METHODS_IMPORTS)
 
 
+LSQ_FUNCS = ["least_squares"]
+LSQ_THEOREMS = ["src_least_squares_eq", "src_least_squares_minimises"]
+LSQ_IMPORTS = ("From Verde Require Import Lib.LinAlgQ Model.LeastSquares Proofs.LeastSquaresProofs "
+               "Proofs.PyLiteBridge.")
+
+
+def lsq_obligations():
+    """verde/base/least_squares.py least_squares (property C02): its glue against the code path of
+    Model/LeastSquares.v (scaled_matrix / unscale), the scikit-learn objects by specification; to hook it:
+    `obligations = pylite_tie.lsq_obligations` in harness/c02.py"""
+    return tie("LsqSrc", os.path.join("verde", "base", "least_squares.py"), LSQ_FUNCS, "pylite_lsq.v.tmpl",
+               LSQ_THEOREMS, LSQ_IMPORTS)
+
+
 CV_FUNCS = [(os.path.join("verde", "base", "base_classes.py"), "BaseBlockCrossValidator.__init__"),
             "BlockKFold.__init__", "BlockShuffleSplit.__init__"]
 CV_THEOREMS = ["src_BaseBlockCrossValidator_init_eq", "src_BlockKFold_init_eq", "src_BlockShuffleSplit_init_eq"]
